@@ -594,6 +594,43 @@ func famFsReq(o *Out, r *RNG, thorough bool) {
 			}
 		}
 	}
+	// names that are string-prefix related without being path-prefix related, and names that start with dots:
+	// every ordered pair as source and destination of COPY and MOVE, over files and collections (overlap guards that
+	// compare strings instead of paths, or take "..x" for "..", show here), plus PROPFIND/GET of each
+	tree2 := []fsEntry{{path: "/", dir: true}, {path: "/a", dir: true}, {path: "/a/x", content: "1"}, {path: "/ab", content: "2"}, {path: "/a.bak", dir: true},
+		{path: "/docs", dir: true}, {path: "/docs/..old", content: "3"}, {path: "/docs/...", dir: true}, {path: "/docs/.../in", content: "4"}, {path: "/docs/r", content: "5"},
+		{path: "/.hidden", content: "6"}, {path: "/..data", dir: true}, {path: "/..data/f", content: "7"}}
+	sb.reset(tree2)
+	base2 := sxTree(sb.listing())
+	names2 := []string{"/a", "/ab", "/a.bak", "/abc", "/a/x", "/a/xy", "/docs", "/docs/..old", "/docs/...", "/docs/.../in", "/docs/..new", "/.hidden", "/..data", "/..data/f", "/.h"}
+	for _, src := range names2 {
+		for _, dst := range names2 {
+			related := src == dst || strings.HasPrefix(dst, src) || strings.HasPrefix(src, dst) || strings.Contains(src, "/..") != strings.Contains(dst, "/..")
+			if !related && !thorough && !r.Chance(10) {
+				continue
+			}
+			for _, m := range []string{"COPY", "MOVE"} {
+				for _, ow := range []string{"", "F"} {
+					if ow == "F" && !thorough && !related {
+						continue
+					}
+					d := (&url.URL{Path: dst}).String()
+					line, out := sb.do(fsReq{method: m, path: src, dest: &d, ow: ow, fault: -1})
+					o.Emit("fs.req", line, out)
+					if sxTree(sb.listing()) != base2 {
+						sb.reset(tree2)
+					}
+				}
+			}
+		}
+		for _, depth := range []string{"0", "1", "infinity"} {
+			line, out := sb.do(fsReq{method: "PROPFIND", path: src, depth: depth, pf: 'a', ctype: "application/xml", fault: -1})
+			o.Emit("fs.req", line, out)
+		}
+		line, out := sb.do(fsReq{method: "GET", path: src, fault: -1})
+		o.Emit("fs.req", line, out)
+	}
+	sb.reset(tree)
 	// random histories over a larger universe
 	nh := 150
 	if thorough {
